@@ -21,4 +21,6 @@ VARIANTS = [
     V('benign-inline-transition', S, ("frame_transition = globalToLocal(new_frame, old_frame)\n        self.data = frame_transition.adjoint() @ self.data", "self.data = globalToLocal(new_frame, old_frame).adjoint() @ self.data"), 'silent'),
     V('benign-mr-adjoint', W, ("self.data = frame_transition.adjoint().T @ self.data", "self.data = np.transpose(frame_transition.adjoint()) @ self.data"), 'silent'),
     V('benign-temp-result', S, ("return self.data - other_object\n", "difference = self.data - other_object\n        return difference\n"), 'silent'),
+    V('benign-radd-zero-identity', S, ("new_object : result of addition, either a screw or matrix.\n        \"\"\"\n        return self.__add__(other_object)", "new_object : result of addition, either a screw or matrix.\n        \"\"\"\n        if isinstance(other_object, (int, float)) and other_object == 0:\n            return self.copy()\n        return self.__add__(other_object)"), 'silent'),
+    V('rsub-zero-returns-self', S, ("return other_object - self.data\n", "if isinstance(other_object, (int, float)) and other_object == 0:\n            return self.copy()\n        return other_object - self.data\n"), 'fire', 'R12.1'),
 ]
